@@ -170,6 +170,15 @@ add("C16", "exploration", "DESIGN.md §2 C16",
     "through 2-3 of 7 protocol forms (tens of thousands of request pairs per quick run). Sampled.",
     "timestamps are removed, the archive's own display name rewritten; CPython audit events stand for opens/execs")
 
+add("C17", "exploration", "DESIGN.md §2 C17",
+    "Model-based differential testing over a TAL/TALES/METAL template grammar: Hypothesis-generated template ASTs x "
+    "contexts, simpleTAL's expansion vs an independent tree-walking reference interpreter (token-stream equality), plus a "
+    "bracket/jump-target invariant on every compiled program",
+    "6k (quick) / 150k (thorough) template x context pairs (nesting <= 4, every subset of the six TAL commands, nested "
+    "repeats, local/global defines, alternation and all TALES prefixes, repeat variables, attrs, METAL macros with "
+    "slots, template inclusion). Sampled; restricted to constructs with an unambiguous specification.",
+    "the reference interpreter is written by the same reader of the specifications; html.parser tokenises both sides")
+
 NOT_APPLICABLE = []
 
 
